@@ -218,19 +218,22 @@ Definition run_unit_c (fuel : nat) (vm : mstate) (cs : cstate) (u : N) (L : layo
   | _ => ((if RUN_FAST_UNWINDS_ON_ERROR then with_frames vm1 (unwind (frames vm1)) else vm1), cs1, out, s)
   end.
 
-Fixpoint load_modules_c (fuel : nat) (vm : mstate) (cs : cstate) (u : N) (ms : list munit)
-  : mstate * cstate * N * list Z * status :=
+Fixpoint load_modules_c (fuel : nat) (vm : mstate) (cs : cstate) (u : N) (loaded : list N) (ms : list munit)
+  : mstate * cstate * N * list N * list Z * status :=
   match ms with
-  | [] => (vm, cs, u, [], SOk)
+  | [] => (vm, cs, u, loaded, [], SOk)
   | m :: r =>
-      let '(vm1, cs1, out, s) := if mu_run m then run_unit_c fuel vm cs u (mu_layout m) (mu_body m) else (vm, cs, [], SOk) in
+      if mu_fails m then (vm, cs, u, loaded, [], SErr) else
+      let run := negb (memb (mu_id m) loaded) in
+      let '(vm1, cs1, out, s) := if run then run_unit_c fuel vm cs u (mu_layout m) (mu_body m) else (vm, cs, [], SOk) in
       match s with
       | SOk =>
-          let vm2 := if MODULE_SYNCS_BEFORE_EXPORTS && mu_run m then sync_loaded vm1 else vm1 in
+          let vm2 := if MODULE_SYNCS_BEFORE_EXPORTS && run then sync_loaded vm1 else vm1 in
           let vm3 := fold_left (fun v e => set_name v (fst e) (glookup (gmap v) (snd e))) (mu_exports m) vm2 in
           let cs2 := match mu_exports m with [] => cs1 | _ => clear cs1 end in       (* set_global clears the cache *)
-          let '(vm4, cs3, u', out2, s2) := load_modules_c fuel vm3 cs2 (N.succ u) r in (vm4, cs3, u', out ++ out2, s2)
-      | _ => (vm1, cs1, N.succ u, out, s)
+          let '(vm4, cs3, u', l4, out2, s2) := load_modules_c fuel vm3 cs2 (N.succ u) (if run then mu_id m :: loaded else loaded) r in
+          (vm4, cs3, u', l4, out ++ out2, s2)
+      | _ => (vm1, cs1, N.succ u, loaded, out, s)
       end
   end.
 
@@ -239,21 +242,21 @@ Definition mstep_c (fuel : nat) (cd : cdstate) (st : step) : cdstate * list Z * 
   match st with
   | SInput imports compiles L body newmut imported =>
       let vm0 := if REPL_CLEARS_FRAMES_FIRST then with_frames (d_vm d) [] else d_vm d in
-      let '(vm1, cs1, u1, out1, s1) := load_modules_c fuel vm0 (cd_cs cd) (cd_unit cd) imports in
+      let '(vm1, cs1, u1, l1, out1, s1) := load_modules_c fuel vm0 (cd_cs cd) (cd_unit cd) (d_loaded d) imports in
       match s1 with
       | SOk =>
           if negb compiles then
-            (mkCD (mkD vm1 (if REPL_RECORDS_IMPORTS_AFTER_COMPILE then d_known d else imported ++ d_known d) (d_mut d)) cs1 u1, out1, SErr)
+            (mkCD (mkD vm1 (if REPL_RECORDS_IMPORTS_AFTER_COMPILE then d_known d else imported ++ d_known d) (d_mut d) l1) cs1 u1, out1, SErr)
           else
             let known1 := imported ++ d_known d in
             let mut1 := newmut ++ d_mut d in
             let '(vm2, cs2, out2, s2) := run_unit_c fuel vm1 cs1 u1 L body in
             match s2 with
-            | SOk => (mkCD (mkD (if REPL_SYNCS_AFTER_SUCCESSFUL_RUN then sync_loaded vm2 else vm2) (names_of_layout L ++ known1) mut1) cs2 (N.succ u1),
+            | SOk => (mkCD (mkD (if REPL_SYNCS_AFTER_SUCCESSFUL_RUN then sync_loaded vm2 else vm2) (names_of_layout L ++ known1) mut1 l1) cs2 (N.succ u1),
                       out1 ++ out2, SOk)
-            | _ => (mkCD (mkD vm2 known1 mut1) cs2 (N.succ u1), out1 ++ out2, s2)
+            | _ => (mkCD (mkD vm2 known1 mut1 l1) cs2 (N.succ u1), out1 ++ out2, s2)
             end
-      | _ => (mkCD (mkD vm1 (d_known d) (d_mut d)) cs1 u1, out1, s1)
+      | _ => (mkCD (mkD vm1 (d_known d) (d_mut d) (if REPL_KEEPS_MODULE_MEMO_ON_FAILED_LOAD then l1 else [])) cs1 u1, out1, s1)
       end
   | SHost n nargs arg =>
       match glookup (gmap (d_vm d)) n with
@@ -263,14 +266,14 @@ Definition mstep_c (fuel : nat) (cd : cdstate) (st : step) : cdstate * list Z * 
               match lookup fid C with
               | Some fd =>
                   if negb (fd_arity fd =? nargs) then
-                    (mkCD (mkD (if HOST_CALL_CHECKS_ARITY_FIRST then d_vm d else prepare (d_vm d) (fd_layout fd)) (d_known d) (d_mut d))
+                    (mkCD (mkD (if HOST_CALL_CHECKS_ARITY_FIRST then d_vm d else prepare (d_vm d) (fd_layout fd)) (d_known d) (d_mut d) (d_loaded d))
                           (cd_cs cd) (cd_unit cd), [], SErr) else
                   let vm0 := prepare (d_vm d) (fd_layout fd) in
                   let vm1 := with_frames vm0 (mkFrame (fd_layout fd) true :: frames vm0) in
                   let '(vm2, cs2, out, s) := exec_c fuel (CFn fid) (fd_layout fd) arg vm1 (cd_cs cd) (fd_body fd) in
                   match s with
-                  | SOk => (mkCD (mkD (do_return vm2) (d_known d) (d_mut d)) cs2 (cd_unit cd), out, SOk)
-                  | _ => (mkCD (mkD (if RUN_FAST_UNWINDS_ON_ERROR then with_frames vm2 (unwind (frames vm2)) else vm2) (d_known d) (d_mut d))
+                  | SOk => (mkCD (mkD (do_return vm2) (d_known d) (d_mut d) (d_loaded d)) cs2 (cd_unit cd), out, SOk)
+                  | _ => (mkCD (mkD (if RUN_FAST_UNWINDS_ON_ERROR then with_frames vm2 (unwind (frames vm2)) else vm2) (d_known d) (d_mut d) (d_loaded d))
                                 cs2 (cd_unit cd), out, s)
                   end
               | None => (cd, [], SErr)
@@ -280,7 +283,7 @@ Definition mstep_c (fuel : nat) (cd : cdstate) (st : step) : cdstate * list Z * 
           end
       | _ => (cd, [], SErr)
       end
-  | SSet n v => (mkCD (mkD (set_name (d_vm d) n v) (d_known d) (d_mut d)) (clear (cd_cs cd)) (cd_unit cd), [], SOk)
+  | SSet n v => (mkCD (mkD (set_name (d_vm d) n v) (d_known d) (d_mut d) (d_loaded d)) (clear (cd_cs cd)) (cd_unit cd), [], SOk)
   end.
 
 Fixpoint msession_c (fuel : nat) (cd : cdstate) (steps : list step) : list (list Z * status) :=
